@@ -724,7 +724,16 @@ def run(tier: str, seed: int, replay=None) -> int:
     findings = core.load_findings(PROP)
     descrs: List[dict] = []
     origin: List[str] = []
-    if replay is not None:
+    from . import c05 as _c05          # generated class models (with falsy-capable classes) are produced by harness/c05.py's workers
+    gdir = core.WORK / PROP / "genmodels"
+    gdir.mkdir(parents=True, exist_ok=True)
+    procs = []
+    if replay is not None and "model" in replay:
+        rf = gdir / "replay_in.json"
+        rf.write_text(json.dumps(replay))
+        procs.append(("replay", gdir / "out_replay.json",
+                      _c05.spawn_worker(PROP, seed, int(replay["model"]["idx"]), 1, model_ok, gdir / "out_replay.json", rf)))
+    elif replay is not None:
         case = replay["case"]
         if isinstance(case, dict) and case.get("scenario") == "state_reuse":
             return _run_state_reuse(rep, findings, only=True)
@@ -747,6 +756,9 @@ def run(tier: str, seed: int, replay=None) -> int:
             if isinstance(c, dict) and "objs" in c:
                 descrs.append(c)
                 origin.append(f"corpus/{PROP}/{f.name}")
+        nmodels, per_model = (6, 60) if tier == "quick" else (24, 250)
+        for j in range(nmodels):
+            procs.append((j, gdir / f"out_{j}.json", _c05.spawn_worker(PROP, seed, j, per_model, model_ok, gdir / f"out_{j}.json")))
         rng = core.Rng(seed).fork(4)
         ncases = 4000 if tier == "quick" else 30000
         for i in range(ncases):
@@ -781,6 +793,31 @@ def run(tier: str, seed: int, replay=None) -> int:
             continue
         args = f"{heap_term(heap)} {r}%nat {heap_term(res['heap'])} {res['root']}%nat"
         exprs.append((len(metas) - 1, f"{fn} {alts_term()} {args}" if model_ok else f"{fn} {args}"))
+    # cases over freshly generated class models (ORMatic generates the layer in a subprocess per model): classes whose instances
+    # can be FALSY (__len__ over a collection / JSON list, __bool__ over a scalar) behind single references and in collections
+    gdist = {"models": 0, "cases": 0, "setup_errors": [], "falsy_objs>0": 0, "falsy_behind_single_ref>0": 0, "falsy_in_collection>0": 0,
+             "falsy_root": 0, "cyclic>0": 0, "shared>0": 0, "n": {}}
+    for j, outf, pr in procs:
+        o = _c05.collect_worker(rep, j, outf, pr)
+        if o is None:
+            continue
+        if "setup_error" in o:
+            gdist["setup_errors"].append({"model": j, "error": o["setup_error"]})
+            continue
+        gdist["models"] += 1
+        for m in o["cases"]:
+            m["model"], m["source"] = o["model"], o.get("source")
+            ft = m["ft"]
+            gdist["cases"] += 1
+            gdist["n"][ft["n"]] = gdist["n"].get(ft["n"], 0) + 1
+            for k in ("falsy_objs", "falsy_behind_single_ref", "falsy_in_collection", "falsy_root"):
+                gdist[k + (">0" if k != "falsy_root" else "")] += 1 if ft.get(k) else 0
+            gdist["cyclic>0"] += 1 if ft["cyclic_objs"] else 0
+            gdist["shared>0"] += 1 if ft["shared"] else 0
+            rep.count(m["origin"] + json.dumps(m["descr"], sort_keys=True), ft["n"] >= 2)
+            metas.append(m)
+            if m.get("expr"):
+                exprs.append((len(metas) - 1, m["expr"]))
     if not model_ok:
         rep.note("model not available; comparing the implementation with the Spec only (search for a failing input)")
     try:
@@ -828,29 +865,34 @@ def run(tier: str, seed: int, replay=None) -> int:
         bad.append((m, f"code {code}: {res['py_iso']}"))
     if stale:
         rep.note(f"{stale} cases outside F04 where impl = spec but the model predicts a failure (model inexact / finding repaired)")
+    dist["generated_models"] = gdist
     rep.extra["distribution"] = dist
     rep.extra["known_finding_instances"] = {"C04-a": kf_altcycle, "C04-c": kf_altbase}
     rep.samples = [{"case": m["descr"], "features": m["ft"]} for m in metas[:: max(1, len(metas) // 5)]][:5]
 
     for m, why in bad[:5]:
         detail = {}
-        small = shrink(m["descr"], _fails_like(m["res"]))
+        small = m["descr"] if m.get("generated") else shrink(m["descr"], _fails_like(m["res"]))   # generated cases are shrunk by their worker
         if small != m["descr"]:
             m = {"descr": small, "origin": m["origin"] + " (shrunk)", "ft": features(small), "res": run_impl(small)}
             m["heap"], m["root"], _ = input_heap(small)
             why = "exception " + m["res"]["exc"] if "exc" in m["res"] else f"shrunk: {m['res'].get('py_iso')}"
         if "heap" in m["res"] and model_ok:
             try:
-                alts = alts_term()
+                alts = m.get("alts") or alts_term()
                 a1 = f"{heap_term(m['heap'])} {m['root']}%nat"
                 v = core.coq_eval_sx(PROP, HEADER, [f"spec_canon {a1}", f"model_canon {alts} {a1}",
                                                    f"spec_canon {heap_term(m['res']['heap'])} {m['res']['root']}%nat"])
                 detail = {"spec": v[0], "model": v[1], "impl": v[2]}
             except Exception as e:  # noqa
                 detail = {"detail_error": str(e)[:200]}
+        gen = {"model": m["model"], "model_source": m.get("source")} if m.get("generated") else {}
         rep.violation({"kind": "counterexample", "case": m["descr"], "origin": m["origin"], "features": m["ft"], "why": why,
-                       "impl_result_heap": m["res"].get("heap"), **detail,
-                       "python": f"from harness import c04; print(c04.explain({m['descr']!r}))",
+                       "impl_result_heap": m["res"].get("heap"), **detail, **gen,
+                       "python": (f"from harness import c04; print(c04.explain({m['descr']!r}))" if not m.get("generated") else
+                                  "# generated class model: save model_source as a module, generate its layer with ORMatic(ClassDiagram(classes)), build the "
+                                  "graph in 'case' (objs[i].c = class, s = scalar kwargs, r = reference fields by object index), then to_dao(root).from_dao(); "
+                                  "or: ./check C04 --replay <this file>"),
                        "explanation": "canonical form = [root, [object: [class id, scalar ids, [[field tag, [targets]]]]]] in DFS discovery order; "
                                       "spec = canon of the input graph, impl = canon of from_dao(to_dao(input)) on the real code"})
     if replay is None or replay.get("case", {}).get("scenario") == "todao_state":
